@@ -73,6 +73,12 @@ func (h *Host) Install(vm *ds.Context) {
 			h.Calls = append(h.Calls, Invocation{What: "never-regex", Groups: groups})
 			return ds.NewIntVal(0), "", nil
 		})
+		// a pattern with a top-level alternation: neither branch can start an operand of the generated
+		// programs, but the second one occurs INSIDE identifiers they use (xZZb7)
+		_ = vm.RegCustomDice(`ZZa(\d+)|ZZb(\d+)`, func(ctx *ds.Context, groups []string, payload any) (*ds.VMValue, string, error) {
+			h.Calls = append(h.Calls, Invocation{What: "never-regex3", Groups: groups})
+			return ds.NewIntVal(0), "", nil
+		})
 		_ = vm.RegCustomDice(`[^\x00-\x{10FFFF}]x`, func(ctx *ds.Context, groups []string, payload any) (*ds.VMValue, string, error) {
 			h.Calls = append(h.Calls, Invocation{What: "never-regex2", Groups: groups})
 			return ds.NewIntVal(0), "", nil
